@@ -21,6 +21,23 @@ PROPS = {
         "level_text": "Seeded exploration of BiMap operation histories (all six mutators plus construction, over an alphabet with falsy symbols so that key/value collisions are frequent) with the complete public observation compared to a textbook two-dict model after every step. Histories, not single calls, are what the property quantifies over; exploration is the level a sampled history space supports.",
         "level_note": "Trusted: the 20-line reference model in props/c18.py. Alphabet excludes None and bools (None is the implementation's 'absent' sentinel for get_left/get_right; True == 1 as a dict key).",
     },
+    "C04": {
+        "engine": "A", "level": "exploration",
+        "tiers": {"quick": {"batches": 16, "runs": 400, "budget_s": 45, "floor_runs": 1500},
+                  "thorough": {"batches": 64, "runs": 4000, "budget_s": 500, "floor_runs": 50000}},
+        "rule": "one run = 1-3 client actors sharing one Hugr (plus 0-2 auxiliary HUGRs with their own actor, used as "
+                "insertion sources); the seeded scheduler picks which actor makes the next call among add_node / add_const / "
+                "add_link / add_order_link / delete_link (existing, parallel, middle-of-fan-out, absent) / delete_node (leaf) / "
+                "insert_hugr; after every call every query of the store is compared with a sequential port-multigraph model; "
+                "non-trivial = >= 3 state-changing calls; distinct = distinct event-log digests",
+        "real": ["hugr.hugr.base.Hugr graph store, hugr.utils.BiMap, node/port handles"], "stub": [],
+        "expected_probes": ["freed_index_reused", "fanout_middle_deleted", "parallel_link_deleted", "deleted_node_had_order_links",
+                            "deleted_node_had_multilinked_port", "insert_hugr", "insert_source_with_holes", "order_link_repeat",
+                            "absent_link_delete", "fan_in", "fan_out"],
+        "technique": "seeded interleaving of client actors on one shared graph, checked call by call against a sequential reference model (refinement), with choice-trace minimisation and fresh-interpreter replay",
+        "level_text": "The canonical reference-model idiom: every mutation history is replayed on a plain port multigraph and every query (iteration, count, lookup of live and dead handles, parent, ordered children, links(), linked_ports from both ends and all offsets incl. the order port, per-port listings, order-link listings, has_link, port counts as lower bounds) is compared after every call. Histories with collisions (small offset range, locality, index reuse) are sampled; exploration is the level a sampled history space supports.",
+        "level_note": "Trusted: oracles/refgraph.py. Calls are atomic (no yield point inside the library), so an interleaving is a total order of calls. num_incoming/num_outgoing are not compared (the statement does not list them). Insertion order inside linked_ports is not asserted. Only leaves are deleted.",
+    },
     "C19": {
         "engine": "D", "level": "exploration",
         "tiers": {"quick": {"batches": 16, "runs": 1500, "budget_s": 40, "floor_runs": 4000},
@@ -44,6 +61,8 @@ def tier_cfg(prop: str, tier: str) -> dict:
 
 
 ENGINES = [
+    {"name": "A", "path": "hugrsim/engines/a_graph.py", "serves_properties": ["C04", "C08", "C16", "C02", "C03"],
+     "kind_free_text": "graph-store client actors on one shared Hugr, mirrored on oracles/refgraph.py; seeded scheduler picks the next caller"},
     {"name": "D", "path": "hugrsim/props/c18.py, c19.py, c15.py", "serves_properties": ["C18", "C19", "C15"],
      "kind_free_text": "small state machines: seeded operation histories vs sequential reference models"},
 ]
